@@ -115,8 +115,16 @@ def cases(draw):
     corrupt = None
     if bench == "asmbench" and draw(st.integers(0, 2)) == 0:
         corrupt = [draw(st.sampled_from(["missing-blank", "extra-line"])), draw(st.integers(0, len(forms) - 1))]
+    # ibench prints one result line per benchmark: the lines of one form need not be adjacent
+    order = "adjacent"
+    perm = None
+    if bench == "ibench":
+        order = draw(st.sampled_from(["adjacent", "adjacent", "grouped", "shuffled"]))
+        if order == "shuffled":
+            nlines = sum(2 if f["which"] in ("both", "rev") else 1 for f in forms)
+            perm = draw(st.permutations(list(range(nlines))))
     return {"isa": isa, "arch": arch, "bench": bench, "forms": forms, "corrupt": corrupt,
-            "header": draw(st.booleans()), "final_blank": True}
+            "header": draw(st.booleans()), "final_blank": True, "order": order, "perm": perm}
 
 
 def render(case):
@@ -124,11 +132,16 @@ def render(case):
     if case["bench"] == "ibench":
         if case["header"]:
             out.append("Using frequency 2.50GHz.")
+        body = []
         for f in case["forms"]:
             tp = "%s-TP:   %.3f (clock cycles)    [DEBUG - result: 1.000000]" % (f["name"], f["tp"])
             lt = "%s-LT:   %.3f (clock cycles)    [DEBUG - result: 1.000000]" % (f["name"], f["lt"])
-            out += {"both": [tp, lt], "rev": [lt, tp], "tp": [tp], "lt": [lt]}[f["which"]]
-        return "\n".join(out) + "\n"
+            body += {"both": [tp, lt], "rev": [lt, tp], "tp": [tp], "lt": [lt]}[f["which"]]
+        if case.get("order") == "grouped":
+            body = [l for l in body if "-TP:" in l] + [l for l in body if "-LT:" in l]
+        elif case.get("order") == "shuffled" and case.get("perm"):
+            body = [body[i] for i in case["perm"] if i < len(body)]
+        return "\n".join(out + body) + "\n"
     for k, f in enumerate(case["forms"]):
         if case["corrupt"] and case["corrupt"] == ["extra-line", k]:
             out.append("")
@@ -263,6 +276,8 @@ def check_case(case):
         cl.append("rejected-measurement")
     if any(f["which"] in ("tp", "lt") for f in case["forms"]):
         cl.append("single-line-form")
+    if case["bench"] == "ibench":
+        cl.append("line-order:" + case.get("order", "adjacent"))
     return {"nontrivial": bool(nt), "classes": cl, "key": text, "sample": {"arch": case["arch"], "bench": case["bench"],
                                                                         "file": text.split("\n")[:10]}}
 
